@@ -16,7 +16,8 @@ TRUSTED = ['the clock (irclib.time.time), the composite outFilter chain (any fun
            'configuration enter the model as inputs; IrcMsg.__eq__ is modelled as equality of (command, content key)',
            'of _truncateMsg only the UTF-8 encodability test is modelled (an unencodable message leaves takeMsg through the firewall); truncation itself, label tagging and echo emulation are not modelled (they do not touch the send state); '
            'they run in the differential test, where an exception in them would show up as a lost message']
-ASSUMPTIONS = ['a message whose line has no UTF-8 form (lone surrogate) cannot be sent at all: that takeMsg discards it (UnicodeEncodeError from _truncateMsg behind the firewall, since the fix of C06.F19) is not counted as a loss; the oracle accepts this only when the message, as the filters left it, really cannot be encoded, and demands that nothing unencodable is ever handed to the driver',
+ASSUMPTIONS = ['driver.reconnect() is an observable event of the model (the stub driver does nothing); a real driver resets the Irc on reconnect, which clears both queues, so the oracle counts a reconnect asked for by takeMsg while accepted messages are waiting as a loss (theorem C19_reconnect_only_idle: it is only ever asked for with nothing pending)',
+               'a message whose line has no UTF-8 form (lone surrogate) cannot be sent at all: that takeMsg discards it (UnicodeEncodeError from _truncateMsg behind the firewall, since the fix of C06.F19) is not counted as a loss; the oracle accepts this only when the message, as the filters left it, really cannot be encoded, and demands that nothing unencodable is ever handed to the driver',
                'world.testing/log.testing off; each queued IrcMsg is a fresh object; supybot.protocols.irc.umodes empty',
                'die() before the end of MOTD (afterConnect false) closes the driver at once by design; every other kill of the driver (by takeMsg, by die() after 376/422, by reset) is checked: nothing accepted may then be waiting in the fastqueue or the queue',
                'a history ends when driver.die() has been called']
@@ -371,6 +372,11 @@ def oracle(case, facts):
             out.append(('drain', 'op %d: %s killed the driver with %d accepted message(s) never handed to it: %s (fastqueue %d, queue %d)'
                         % (i, {2: 'takeMsg()', 3: 'die() after the end of MOTD', 4: 'reset()'}.get(code, 'op %d' % code), len(flat_after),
                            ' '.join(m.command for m in flat_after), len(f['after'][0]), len(flat_after) - len(f['after'][0]))))
+        # a reconnect asked for by takeMsg (keep-alive PING unanswered) makes the driver reset the Irc (SocketDriver.reconnect ->
+        # irc.reset()), which flushes both queues: issued while accepted messages are waiting, it loses them
+        if code == 2 and f.get('reconnects') and flat_after:
+            out.append(('reconnect_loss', 'op %d: takeMsg() asked the driver to reconnect (which resets the Irc and clears its queues) while %d '
+                        'accepted message(s) were waiting to be sent: %s' % (i, len(flat_after), ' '.join(m.command for m in flat_after))))
         # eventual delivery: a steady-polling tail (takeMsg once per virtual second, nothing new queued, bot alive)
         # that is long enough must leave nothing pending of what had been accepted before it
         tail = case.get('tail')
@@ -544,6 +550,44 @@ def gen_tail_case(rng, hostile):
     return add_tail(c, T)
 
 
+def gen_keepalive_case(rng):
+    """connected bot, keep-alive PING on with a short interval, throttleTime > 0 (mostly), several messages queued, the clock
+    running past ping.interval with no PONG (sometimes one), sometimes a die(): throttled calls must stop at the throttle"""
+    interval = rng.choice([3, 5, 10])
+    cfg = [rng.choice([1, 2, 2, 5, 0]), rng.choice([0, 0, 3]), int(rng.random() < 0.2), 1, interval, 0]
+    T = rng.choice([1, 50])
+    ops = [[4, T]]
+    for _ in range(4):
+        T += 1
+        ops.append([2, T])
+    ops.append([5])
+    n = rng.randint(8, 40)
+    for i in range(n):
+        r = rng.random()
+        if r < 0.45:
+            T += rng.choice([0, 1, 1, 2, interval, interval + 1])
+            ops.append([2, T])
+            if rng.random() < 0.5:
+                ops.append([2, T + rng.choice([0, 0, 1])])     # the driver's second takeMsg of the round
+                T = ops[-1][1]
+        elif r < 0.85:
+            for _ in range(rng.randint(1, 3)):
+                ops.append([0, gen_msg(rng, 0, False, T)])
+        elif r < 0.90:
+            ops.append([6])
+        elif r < 0.94:
+            ops.append([1, gen_msg(rng, 0, False, T)])
+        elif r < 0.97:
+            ops.append([3])
+        else:
+            T += interval + 1
+            ops.append([2, T])
+    for i, o in enumerate(ops):
+        if o[0] in (0, 1):
+            o[1][0] = i
+    return {'cfg': cfg, 'ops': ops}
+
+
 def gen_die_case(rng):
     """die() on a connected bot with (fastqueue, queue) = (non-empty, empty) / (non-empty, non-empty) / (empty, non-empty) / (empty, empty),
     then polls"""
@@ -617,6 +661,14 @@ CORPUS = [
                                           [1, M(8, 'PONG', 1, 0, 0, 1)], [0, M(9, 'MODE', 1, 1, 0, 1)], [0, M(10, 'JOIN', 2, 0, 0, 1)], [0, M(11, 'NOTICE', 3, 3, 1, 1)],
                                           [2, 5], [2, 7], [2, 9], [2, 11], [2, 13], [2, 15], [2, 17], [3], [2, 19], [2, 21]]},
     {'cfg': [0, 0, 0, 1, 120, 0], 'ops': [[4, 1], [2, 2], [2, 3], [2, 4], [5], [0, M(5, 'PRIVMSG', 0, 0, 0, 1)], [3], [2, 6], [2, 7]]},
+    # keep-alive PING unanswered for more than ping.interval while two messages wait behind the throttle (and the same on a quitting bot):
+    # the throttled second call of the round must stop at the throttle, not reach the keep-alive branch (reconnect = reset = queues wiped)
+    {'cfg': [2, 0, 0, 1, 5, 0], 'ops': [[4, 1], [2, 2], [2, 3], [2, 4], [5], [2, 10], [2, 11], [2, 12], [0, M(9, 'PRIVMSG', 0)], [0, M(10, 'PRIVMSG', 1)],
+                                        [2, 20], [2, 20], [2, 21], [2, 23], [2, 24], [2, 30]]},
+    {'cfg': [2, 0, 0, 1, 5, 0], 'ops': [[4, 1], [2, 2], [2, 3], [2, 4], [5], [2, 10], [2, 11], [2, 12], [0, M(9, 'PRIVMSG', 0)], [0, M(10, 'PRIVMSG', 1)],
+                                        [3], [2, 20], [2, 20], [2, 23], [2, 24]]},
+    # no outstanding PING yet: a throttled call must not queue the keep-alive PING behind waiting messages either
+    {'cfg': [2, 0, 0, 1, 5, 0], 'ops': [[4, 1], [2, 2], [2, 3], [2, 4], [5], [0, M(6, 'PRIVMSG', 0)], [0, M(7, 'PRIVMSG', 1)], [2, 20], [2, 20], [2, 23], [2, 26], [2, 40]]},
     # die() after 376 with: only the fastqueue non-empty (a PONG just sendMsg-ed) / both / only the queue; everything must still be sent
     {'cfg': [1, 0, 0, 1, 120, 0], 'ops': [[4, 1], [2, 2], [2, 3], [2, 4], [5], [1, M(5, 'PONG', 0)], [3], [2, 6], [2, 7]]},
     {'cfg': [1, 0, 0, 1, 120, 0], 'ops': [[4, 1], [2, 2], [2, 3], [2, 4], [5], [1, M(5, 'PONG', 0)], [0, M(6, 'PRIVMSG', 0)], [3], [2, 6], [2, 7], [2, 9], [2, 10]]},
@@ -691,6 +743,8 @@ def run(ctx):
         cases.append((gen_case(rng, True), 'hostile'))
     for _ in range(ctx.n(200)):
         cases.append((gen_die_case(rng), 'die-after-motd'))
+    for _ in range(ctx.n(250)):
+        cases.append((gen_keepalive_case(rng), 'keepalive-throttled'))
     for _ in range(ctx.n(200)):
         cases.append((gen_join_tail(rng), 'join-rate-polling-tail'))
     for _ in range(ctx.n(150)):
